@@ -122,8 +122,9 @@ func mergeRecs(b []byte) []sim.Rec {
 func RunCluster(t *testing.T, cs *ClusterScenario) []*Result {
 	sc := &cs.Sc
 	var results []*Result
-	synctest.Test(t, func(t *testing.T) {
+	ok := sim.Bubble(t, 20*time.Second, func(t *testing.T) {
 		net := vh.NewRand(cs.Cl.NetSeed)
+		pp := vh.NewRand(cs.Cl.NetSeed + 7)
 		insts := make([]*inst, cs.Cl.N)
 		ints := map[string][]sim.IntSpec{}
 		for name, ij := range sc.Receivers {
@@ -248,6 +249,17 @@ func RunCluster(t *testing.T, cs *ClusterScenario) []*Result {
 				}
 			}
 			synctest.Wait()
+			// memberlist push/pull: now and then one instance merges the FULL notification-log state of another
+			// (a multi-entry message), also right after a restart without snapshot (join)
+			if cs.Cl.N > 1 && pp.Chance(1, 3) {
+				a, b := pp.Intn(cs.Cl.N), pp.Intn(cs.Cl.N)
+				if a != b && insts[a].alive && insts[b].alive {
+					if full, err := insts[a].s.Nflog.MarshalBinary(); err == nil && len(full) > 0 {
+						_ = insts[b].s.MergeNflog(full, mergeRecs(full))
+						synctest.Wait()
+					}
+				}
+			}
 			if k == len(sc.Ops) {
 				break
 			}
@@ -295,6 +307,9 @@ func RunCluster(t *testing.T, cs *ClusterScenario) []*Result {
 		time.Sleep(time.Duration(3*cs.Cl.PeerTimeout) + 2*time.Minute)
 		synctest.Wait()
 	})
+	if !ok {
+		return nil // the bubble froze (see sim.Bubble): scenario skipped
+	}
 	return results
 }
 
